@@ -345,7 +345,9 @@ pub fn run_h_with(case: &HCase, svc: &varlink::VarlinkService, rec: &Rec) -> HOb
                 } else if i.is_some() {
                     // an upgraded handler that returned in the middle of the buffered bytes (end of a
                     // batch) is called again as long as that makes progress
-                    again = !buf.is_empty() && progressed;
+                    // (a short read is "the rest is not there yet": while the reader's fault plan
+                    // still has entries the same bytes may get further on the next call)
+                    again = !buf.is_empty() && (progressed || rplan.pos < rplan.plan.len());
                 }
                 iface = i;
             }
